@@ -103,7 +103,9 @@ def check_model(case, ev, max_eval=6):
         if not oracle.all_rows_hold(rws, [full[i] for i in ids]):
             raise Violation(f"inactive polyhedron infeasible for evaluated extension of {env} (aux={t})")
         if n <= max_eval:
-            res = call(m.evaluate_propositions, dict(env), what="evaluate_propositions")
+            # the assignment as Python ints, as narrow signed numpy scalars, as narrow (un)signed numpy scalars
+            given = dict(env) if n % 3 == 1 else {k: common.narrow(v, unsigned_ok=(n % 3 == 0)) for k, v in env.items()}
+            res = call(m.evaluate_propositions, given, what="evaluate_propositions")
             for k, v in full.items():
                 if k not in res:
                     raise Violation(f"evaluate_propositions misses id {k!r} on {env}")
@@ -131,4 +133,7 @@ def parts(tier):
         Part("large", strategy=lambda t: common.model_case(guard=1500 if t == "quick" else 6000, depth=3, profile="large",
                                                            max_bool=3, max_int=3),
              check=check_model, quick=(2, 300), thorough=(4, 2500)),
+        Part("huge", strategy=lambda t: common.model_case(guard=1500, depth=2 if t == "quick" else 3, profile="huge",
+                                                          max_bool=3, max_int=3),
+             check=check_model, quick=(2, 200), thorough=(4, 2000)),
     ]
